@@ -37,6 +37,9 @@ CHECKS = {
  "C02": dict(level="exploration", technique="spawn-counter monitor on run_subproc + differential execution against builtin exec() on an equal namespace",
    text="Command-shaped Python templates x 14 binding statement kinds, parameters of every kind, global, enclosing and class scopes, lambda and comprehension targets, builtin-shadowing names; the real Execer must launch nothing (counter on xonsh.procs.specs.run_subproc), and namespace / stdout / exception type must equal CPython's exec of the same source; del-then-use programs must launch the command; (effect; broken line) programs must leave the effect log empty when xonsh raises SyntaxError.",
    note="Names are bound by construction before use; spawn attribution for the two listed findings is done by neutralising the construct and re-running.", ref="§2 C02"),
+ "C17": dict(level="exploration", technique="differential monitor: xonsh's own parser on formatter input and output (tree equality, COMMENT tokens), idempotence oracle, CLI byte-for-byte monitor",
+   text="~12 000 sources per quick run assembled from Python statements in sloppy spacing, command lines in bare/![]/$()/pipe/redirect/chain form, macros, multi-line strings, f-strings, comments, blank-line runs, continuations, 2/4/8-space and tab indents, CRLF, no final newline, plus stdlib statements with perturbed spacing; input and output are parsed context-free and context-aware and compared location-free, COMMENT tokens compared, second pass compared; un-tokenisable files must be rejected by the CLI and left unchanged.",
+   note="Sources the xonsh parser rejects are dropped; comment strings are compared after strip(); one risky construct class per source with attribution by neutralised twin.", ref="§2 C17"),
 }
 NOT_BUILT = "check not built yet in this session (planned, see DESIGN.md §2); nothing is claimed for it"
 def main():
